@@ -152,6 +152,13 @@ fn gen_case(rng: &mut Rng) -> Case {
             lines.push("end".to_string());
         }
     }
+    // pre-processor output (only where the whole text parses, and not for lint, whose own messages are compared exactly)
+    if calm && !matches!(form, Form::LintShort | Form::LintLong) && rng.chance(1, 8) {
+        for k in 0..1 + rng.usize(2) {
+            let at = rng.usize(lines.len() + 1);
+            lines.insert(at, format!("!print banner{} text", k));
+        }
+    }
     // a child process that writes to the inherited stdout between the script's own lines (the order of the two must
     // be kept). Not next to `print`: text without a line break legitimately waits in stdout's line buffer.
     if rng.chance(1, 8) && !lines.iter().any(|l| l.trim_start().starts_with("print ") || l.trim_start() == "print") {
@@ -331,7 +338,27 @@ fn run_case(case: &Case, env: &WorkerEnv) -> Verdict {
             let err = SimWriter::new("err", vec![]);
             let renv = Env::new(Some(Box::new(out.clone())), Some(Box::new(err)), None);
             let r = if matches!(case.form, Form::File | Form::FileWithExtraArg) { runner::run_script_file(SCRIPT, library_context(), Some(renv)) } else { runner::run_script(&text, library_context(), Some(renv)) };
-            let printed = String::from_utf8_lossy(&out.contents()).to_string();
+            // `!print` lines act while the text is parsed, before anything runs: the executable's stdout carries them
+            // once each, ahead of the run's own output (the in-process parse printed them to this worker's stdout)
+            let mut pre = String::new();
+            if case.fault.is_none() {
+                let eval_form = matches!(case.form, Form::EvalShort | Form::EvalLong);
+                for l in &case.lines {
+                    if eval_form && l.starts_with("!include_files") {
+                        // (given as text the script has no directory: the include fails and parsing stops here)
+                        break;
+                    }
+                    if let Some(rest) = l.strip_prefix("!print ") {
+                        for a in rest.split_whitespace() {
+                            pre.push_str(a);
+                            pre.push(' ');
+                        }
+                        pre.push('\n');
+                        sim::with_core(|c| c.probe("pre-processor-print"));
+                    }
+                }
+            }
+            let printed = format!("{}{}", pre, String::from_utf8_lossy(&out.contents()));
             match r {
                 Ok(_) => {
                     sim::with_core(|c| c.probe("library-ok"));
